@@ -8,13 +8,15 @@ from kit.env import *  # noqa
 
 setup(length_stub=False)
 
+from pptx.opc.package import Part, _Relationship  # noqa: E402
 from pptx.opc.packuri import PackURI  # noqa: E402
 
 MAXLEN = 12 if THOROUGH else 8
 MAXSEG = 2
 DEPTHS = (1, 2, 3, 4) if THOROUGH else (1, 2, 3)
 ENC = ["pptx.opc.packuri:PackURI." + n for n in (
-    "__new__", "from_rel_ref", "baseURI", "ext", "filename", "idx", "membername", "relative_ref", "rels_uri")]
+    "__new__", "from_rel_ref", "baseURI", "ext", "filename", "idx", "membername", "relative_ref", "rels_uri")] + [
+    "pptx.opc.package:_Relationship.target_ref", "pptx.opc.package:_Relationship.target_partname"]
 NAME_BOUND = "every str p, 2 <= len(p) <= %d, p[0]=='/', no '//', no trailing '/'" % MAXLEN
 
 
@@ -192,7 +194,12 @@ def _rt(ps, qs):
     base = PackURI(P).baseURI
     ref = PackURI(Q).relative_ref(base)
     back = PackURI.from_rel_ref(base, ref)
-    return back == Q
+    if back != Q:
+        return False
+    # the same round trip at the place relative references are produced for writing: a relationship from a part in P's
+    # directory to part Q
+    rel = _Relationship(base, "rId1", "http://x/rel", "Internal", Part(PackURI(Q), "application/octet-stream", None))
+    return PackURI.from_rel_ref(base, rel.target_ref) == Q
 
 
 _RT = '''
